@@ -236,7 +236,7 @@ func (c *Ctx) frameObligations(st *State, fr *Frame, pos token.Pos) {
 	sort.Strings(keys)
 	al0 := c.aliveCur(fr.entry)
 	for _, k := range keys {
-		if k == aliveKey || wholeOK[k] || k == chLen || k == chVal || k == chClosed {
+		if k == aliveKey || wholeOK[k] || k == chLen || k == chVal || k == chClosed || k == ctxDoneKey {
 			continue
 		}
 		cur := st.heap[k]
@@ -266,6 +266,7 @@ func (c *Ctx) frameObligations(st *State, fr *Frame, pos token.Pos) {
 
 func (c *Ctx) chanInv(st *State, fr *Frame, chv ssa.Value, v Val, pos token.Pos, prove bool) {
 	name := ""
+	global := ""
 	switch x := chv.(type) {
 	case *ssa.UnOp:
 		switch a := x.X.(type) {
@@ -274,9 +275,10 @@ func (c *Ctx) chanInv(st *State, fr *Frame, chv ssa.Value, v Val, pos token.Pos,
 		case *ssa.FreeVar:
 			name = a.Name()
 		case *ssa.FieldAddr:
-			s, _ := structOf(a.X.Type())
+			s, owner := structOf(a.X.Type())
 			if s != nil {
 				name = s.Field(a.Field).Name()
+				global = typeKey(owner) + "." + name
 			}
 		}
 	case *ssa.Parameter:
@@ -288,6 +290,15 @@ func (c *Ctx) chanInv(st *State, fr *Frame, chv ssa.Value, v Val, pos token.Pos,
 		return
 	}
 	invs := c.V.chanInvs(fr)
+	if global != "" {
+		for _, ci := range c.V.specs.GlobalChanInvs {
+			if ci.Name == global {
+				ci2 := ci
+				ci2.Name = name
+				invs = append(invs, ci2)
+			}
+		}
+	}
 	for _, ci := range invs {
 		if ci.Name != name {
 			continue
